@@ -223,6 +223,7 @@ type Summary struct {
 	Events    int            `json:"events"`
 	WallS     float64        `json:"wall_s"`
 	ActCounts map[string]int `json:"act_counts"`
+	SigCounts map[string]int `json:"sig_counts"`
 }
 
 func replayMain(in io.Reader, tracePath, outPath string, seed int64, workers int, maxFail int) int {
@@ -238,7 +239,7 @@ func replayMain(in io.Reader, tracePath, outPath string, seed int64, workers int
 		traceW = bufio.NewWriterSize(f, 1<<20)
 		defer traceW.Flush()
 	}
-	sum := Summary{ByProp: map[string]int{}, StepsBy: map[string]int{}, ActCounts: map[string]int{}}
+	sum := Summary{ByProp: map[string]int{}, StepsBy: map[string]int{}, ActCounts: map[string]int{}, SigCounts: map[string]int{}}
 	seen := map[string]bool{}
 
 	type job struct {
@@ -311,7 +312,10 @@ func replayMain(in io.Reader, tracePath, outPath string, seed int64, workers int
 				sum.Hard++
 				sum.ByProp[f.Prop]++
 			}
-			if len(sum.Failures) < maxFail {
+			// keep a few failures of every distinct signature, so that no class is hidden by a frequent one
+			key := f.Prop + "|" + f.Act + ":" + f.Key + ":" + f.Sig
+			sum.SigCounts[key]++
+			if sum.SigCounts[key] <= 3 && len(sum.Failures) < maxFail {
 				sum.Failures = append(sum.Failures, f)
 			}
 		}
